@@ -152,6 +152,10 @@ def eval_everything(live, limit_spaces=None):
         for cn in list(s.cells):
             for x in W.QUERY_ARGS:
                 out["%s.%s(%d)" % (path, cn, x)] = live.apply(["eval", path, cn, x])
+        if s.formula is not None:
+            for key in (0, 1):
+                for cn in list(s.cells):
+                    out["%s[%d].%s(1)" % (path, key, cn)] = live.apply(["eval_item", path, key, cn, 1])
     return out
 
 
@@ -209,10 +213,22 @@ def rebuild(defs, inputs=None, name="R"):
                 try:
                     v = rd["value"]
                     if v.startswith("<"):
-                        continue      # object-valued references are rebuilt by C10's own check
+                        continue      # object-valued references: second pass, when every target exists
                     setattr(s, rn, None if v == "N" else int(v))
                 except Exception as e:
                     problems.append("ref %s.%s: %r" % (path, rn, e))
+            if sd.get("param"):
+                s.formula = "lambda i: None"
+        for path in topo_spaces(defs):
+            for rn, rd in defs["spaces"][path]["refs"].items():
+                v = rd["value"]
+                if v.startswith("<"):
+                    try:
+                        if v == "<dead>":
+                            raise ValueError("reference to a deleted object cannot be rebuilt")
+                        live.space(path).set_ref(rn, live.refvalue(["obj", v[1:-1]]), rd["mode"])
+                    except Exception as e:
+                        problems.append("objref %s.%s: %r" % (path, rn, e))
         for (path, cn, key, v) in inputs or []:
             try:
                 live.space(path).cells[cn][key] = v
@@ -314,7 +330,8 @@ def gen_next(rng, live, cfg, prev=None, focus=None):
             return ["del_cells", path, rng.choice(pool)]
     if k == "rename_cells":
         if defined:
-            return ["rename_cells", path, rng.choice(defined), rng.choice(W.CELLS)]
+            pool = W.CELLS if rng.random() >= cfg.get("cross_names", 0.0) else W.REFS + W.CHILD
+            return ["rename_cells", path, rng.choice(defined), rng.choice(pool)]
     if k == "add_bases":
         cand = [b for b in paths if b != path]
         if cand:
@@ -327,7 +344,20 @@ def gen_next(rng, live, cfg, prev=None, focus=None):
         nm = rng.choice(W.REFS)
         if rng.random() < cfg.get("cross_names", 0.0):
             nm = rng.choice(W.CELLS + W.CHILD)
+        if rng.random() < cfg.get("obj_refs", 0.0):
+            # an object-valued reference: a cells (or a space) of the model
+            tp, ts = rng.choice(spaces)
+            if list(ts.cells) and rng.random() < 0.8:
+                return ["set_ref", path, nm, ["obj", tp + "." + rng.choice(list(ts.cells))], "absolute"]
+            return ["set_ref", path, nm, ["obj", tp], "absolute"]
         return ["set_ref", path, nm, rng.randint(0, 9)]
+    if k == "set_param":
+        return ["set_param", path, 1 if rng.random() < 0.8 else 0]
+    if k == "eval_item":
+        par = [(p, sp) for p, sp in spaces if sp.formula is not None and list(sp.cells)]
+        if par:
+            p2, s2 = rng.choice(par)
+            return ["eval_item", p2, rng.randrange(2), rng.choice(list(s2.cells)), rng.choice(W.QUERY_ARGS)]
     if k == "del_ref":
         if own_refs:
             return ["del_ref", path, rng.choice(own_refs)]
@@ -403,7 +433,8 @@ def run_one(ops, out, stats, hooks, cfg, rng=None, n_ops=0, seed_ops=None):
     return hooks.nontrivial
 
 
-def run_struct(ctx, out, prop, cfg, hooks_factory, n_quick, n_thorough, rule, ops_range=(12, 26)):
+def run_struct(ctx, out, prop, cfg, hooks_factory, n_quick, n_thorough, rule, ops_range=(12, 26),
+               enumerate_single=True):
     stats = collections.Counter()
     n = ctx.n(n_quick, n_thorough)
     nontrivial, seen, samples = 0, set(), []
@@ -419,8 +450,14 @@ def run_struct(ctx, out, prop, cfg, hooks_factory, n_quick, n_thorough, rule, op
             nontrivial += bool(nt)
         if len(samples) < 2 and rng is not None:
             samples.append([repr(o) for o in ops])
-    out.coverage.update({"evaluations": len(cases), "programs": len(seen), "distinct_nontrivial": nontrivial,
-                         "rule": rule, "samples": samples, "input_distribution": dict(stats),
+    if enumerate_single:
+        enumerate_edits(ctx, out, prop, hooks_factory, cfg, stats)
+    out.coverage.update({"evaluations": len(cases) + stats["enumerated_scenarios"], "programs": len(seen),
+                         "distinct_nontrivial": nontrivial,
+                         "rule": rule + ("; plus, after each of %d motif programs, applicable single edits (thorough: all) "
+                                         "and sampled pairs, each followed by evaluating everything" % (len(MOTIFS) - 1)
+                                         if enumerate_single else ""),
+                         "samples": samples, "input_distribution": dict(stats),
                          "corpus_cases": len(cases) - n, "traces_validated_against_impl": len(cases)})
     return stats
 
@@ -431,7 +468,7 @@ def replay_struct(payload, out, hooks_factory, cfg):
         run_one(ops_from_json(h), out, collections.Counter(), hooks_factory(), cfg)
 
 
-EDIT_KINDS = ("new_space", "del_space", "rename_space", "new_cells", "set_formula", "set_cached", "del_cells",
+EDIT_KINDS = ("set_param", "new_space", "del_space", "rename_space", "new_cells", "set_formula", "set_cached", "del_cells",
               "rename_cells", "add_bases", "remove_bases", "set_ref", "del_ref", "set_mref", "del_mref",
               "set_value", "clear", "clear_all", "clear_at", "allow_none")
 
@@ -468,6 +505,24 @@ MOTIFS = [
     [["new_space", "-", "A", []], ["set_ref", "A", "t", 1], ["new_space", "-", "B", ["A"]],
      ["new_space", "-", "C", ["A"]], ["set_ref", "B", "t", 5], ["new_space", "-", "D", []],
      ["new_space", "D", "X", ["C"]], ["new_cells", "D", "f", F(3, 1, "f", "t", "X")]],
+    # two cached readers of the same reference through an attribute path
+    [["new_space", "-", "D", []], ["new_space", "D", "X", []], ["set_ref", "D.X", "t", 1],
+     ["new_cells", "D", "f", F(3, 1, "f", "t", "X")], ["new_cells", "D", "g", F(3, 2, "g", "t", "X")],
+     ["new_cells", "D", "h", F(1, 1, "g")]],
+    # A <- B, X, C(X, B): adding X to A's bases leaves C without a linearisation
+    [["new_space", "-", "A", []], ["new_cells", "A", "f", F(0, 1)], ["new_space", "-", "B", ["A"]],
+     ["new_space", "-", "D", []], ["new_cells", "D", "g", F(0, 2)], ["new_space", "-", "C", ["D", "B"]]],
+    # Base <- Mid <- Sub with names used for other kinds in Sub only
+    [["new_space", "-", "A", []], ["new_cells", "A", "f", F(0, 1)], ["new_space", "-", "B", ["A"]],
+     ["new_space", "-", "C", ["B"]], ["new_space", "C", "X", []], ["set_ref", "C", "t", 3]],
+    # a cells reached through an object-valued reference from another space; an input below
+    [["new_space", "-", "A", []], ["new_cells", "A", "f", F(0, 1)], ["set_value", "A", "f", 1, 25],
+     ["new_space", "-", "B", []], ["set_ref", "B", "t", ["obj", "A.f"], "absolute"],
+     ["new_cells", "B", "g", F(9, 1, "g", "t")]],
+    # a parametrised sub space deriving a cells
+    [["new_space", "-", "A", []], ["new_cells", "A", "f", F(0, 1)], ["new_cells", "A", "g", F(1, 1, "f")],
+     ["new_space", "-", "B", ["A"]], ["set_param", "B", 1], ["new_space", "-", "C", []],
+     ["new_space", "C", "X", ["A"]], ["set_param", "C.X", 1], ["new_cells", "C", "h", F(10, 1, "g", "r", "X")]],
     # chain of three spaces with overrides
     [["new_space", "-", "A", []], ["new_cells", "A", "f", F(0, 1)], ["new_cells", "A", "g", F(1, 1, "f")],
      ["new_space", "-", "B", ["A"]], ["new_space", "-", "C", ["B"]], ["set_formula", "B", "f", F(0, 2)]],
@@ -510,8 +565,48 @@ def single_edits(live):
             if other != path and other not in [W.rel(live.m, b) for b in s._direct_bases]:
                 edits.append(["add_bases", path, [other]])
         edits.append(["del_space", path])
+        edits.append(["set_param", path, 1 if s.formula is None else 0])
+        for cn, c in s.cells.items():
+            if not c._is_derived():
+                edits.append(["rename_cells", path, cn, "t"])
+                edits.append(["rename_cells", path, cn, "X"])
         free = [c for c in W.CELLS if c not in s.cells]
         if free:
             edits.append(["new_cells", path, free[0], F(0, 9)])
     edits += [["set_mref", "u", 60], ["set_mref", "r", 61], ["del_mref", "u"]]
     return edits
+
+
+def enumerate_edits(ctx, out, prop, hooks_factory, cfg, stats, quick_per_motif=16, pairs_per_motif=6):
+    """small-scope exhaustive part: after every motif program (everything evaluated), every
+    applicable single edit (quick tier: a seeded sample), followed by evaluating everything
+    again; plus sampled pairs of edits.  Runs through the property's own hooks."""
+    for mi, m in enumerate(MOTIFS):
+        if not m:
+            continue
+        prefix = [["set_mref", "u", 11], ["set_mref", "r", 12]] + [list(o) for o in m] + [["evalall"]]
+        close_all()
+        live = W.Live("M")
+        try:
+            for op in prefix:
+                if op[0] == "evalall":
+                    eval_everything(live)
+                else:
+                    live.apply(op)
+            edits = single_edits(live)
+        finally:
+            live.close()
+            close_all()
+        rng = ctx.rng("enum", prop, mi)
+        chosen = edits if ctx.tier == "thorough" else rng.sample(edits, min(len(edits), quick_per_motif))
+        seqs = [[e] for e in chosen]
+        for _ in range(pairs_per_motif * (4 if ctx.tier == "thorough" else 1)):
+            seqs.append([rng.choice(edits), ["evalall"], rng.choice(edits)])
+        for seq in seqs:
+            ops = [list(o) for o in prefix] + [list(o) for o in seq] + [["evalall"]]
+            sub = core.Outcome()
+            run_one(ops, sub, stats, hooks_factory(), cfg)
+            merge(out, sub)
+            stats["enumerated_scenarios"] += 1
+            if len([f for f in out.failures if not f.get("key")]) >= 4:
+                return
